@@ -7,7 +7,9 @@ import (
 	"log/slog"
 	"os"
 	"testing"
+	"time"
 
+	"github.com/goblimey/go-ntrip/rtcm/handler"
 	"github.com/goblimey/go-ntrip/rtcm/pushback"
 	"pgregory.net/rapid"
 	"vh/drive"
@@ -348,6 +350,81 @@ func FuzzBuffer(f *testing.F) {
 		}
 	})
 }
+
+// Aged handlers: handlers that have existed (idle) for a while - seconds in the quick tier, one, five and
+// ten minutes in the thorough tier - are then given damaged and undamaged frames, directly and as a stream.
+// What a handler accepts must not depend on how long it has been running or how long ago it last
+// complained.
+type AgedCase struct {
+	AgesS  []int       `json:"ages_s"`
+	Frames []stats.Hex `json:"frames"` // valid and corrupted frames, in this order, for every age
+}
+
+func checkAged(c AgedCase, o *stats.Obs) error {
+	type aged struct {
+		direct, stream *handler.Handler
+	}
+	hs := make([]aged, len(c.AgesS))
+	for i := range hs {
+		hs[i] = aged{drive.NewHandler(slog.LevelInfo), drive.NewHandler(slog.LevelInfo)}
+	}
+	t0 := time.Now()
+	for i, age := range c.AgesS {
+		if age < 0 || age > 1200 {
+			o.Skip = true
+			return nil
+		}
+		if d := time.Duration(age)*time.Second - time.Since(t0); d > 0 {
+			time.Sleep(d)
+		}
+		var input []byte
+		for k, f := range c.Frames {
+			m, err := hs[i].direct.GetMessage(append([]byte{}, f...))
+			if m != nil && m.MessageType >= 0 && err == nil {
+				if e := typedOK(m.RawData, m.MessageType); e != nil {
+					o.Key = "aged-handler-typed-nonframe"
+					return fmt.Errorf("handler %d s old, GetMessage call %d: %v", age, k, e)
+				}
+			}
+			input = append(input, f...)
+		}
+		res := drive.Run(hs[i].stream, input, drive.Options{InCap: 64, OutCap: 4})
+		if res.Panic != "" || !res.Closed {
+			continue // C07 / C02
+		}
+		for _, m := range res.Msgs {
+			if m.MessageType >= 0 {
+				if e := typedOK(m.RawData, m.MessageType); e != nil {
+					o.Key = "aged-handler-typed-nonframe"
+					return fmt.Errorf("handler %d s old, stream: %v (stream %x)", age, e, input)
+				}
+			}
+		}
+		o.Class(fmt.Sprintf("handler-aged-%ds", age))
+	}
+	o.NonTrivial = true
+	return nil
+}
+
+func genAged(t *rapid.T) AgedCase {
+	c := AgedCase{AgesS: []int{1, 3}}
+	if os.Getenv("VERIF_TIER") == "thorough" {
+		c.AgesS = []int{61, 302, 603}
+	}
+	n := rapid.IntRange(4, 8).Draw(t, "nFrames")
+	for i := 0; i < n; i++ {
+		f := gen.ValidFrame(t, 60)
+		if i%2 == 1 || rapid.Bool().Draw(t, "damage") {
+			f, _ = gen.Corrupt(t, f)
+		}
+		c.Frames = append(c.Frames, f)
+	}
+	return c
+}
+
+var propAged = stats.Prop(R, "aged-handler", genAged, checkAged)
+
+func TestAgedHandler(t *testing.T) { rapid.Check(t, propAged) }
 
 func TestReplay(t *testing.T) { R.Replay(t) }
 
